@@ -80,6 +80,8 @@ def walk(n, path, out, skip_types=True):
         for k, x in enumerate(n[4]):
             walk(x, path + [4, k], out)
         return
+    elif h == "match":
+        out.append(("match", path))
     elif h == "block":
         out.append(("block", path))
     elif h == "return":
@@ -93,6 +95,17 @@ def walk(n, path, out, skip_types=True):
         if k == 0 and isinstance(x, str):
             continue
         walk(x, path + [k], out)
+
+
+def bare_std(n, under_facc):
+    """`std` used other than as the base of a field access (the model's std holds `len` only)"""
+    if isinstance(n, (list, tuple)):
+        if len(n) == 2 and n[0] == "id" and n[1] == "std":
+            return not under_facc
+        if n and n[0] == "facc" and len(n) == 3:
+            return bare_std(n[1], n[2] == "len")
+        return any(bare_std(x, False) for x in n)
+    return False
 
 
 def get(n, path):
@@ -119,7 +132,9 @@ def foreign_exprs(rnd, ids):
             ["fn", [["q", "int"]], "int", [["stm", ["return", ["expr", ["id", "q"]]]]]],
             ["post", ["array", I(1), I(2)], "~"],
             ["repeat", I(0), I(2)],
-            ["array", I(1), S("x")]]
+            ["array", I(1), S("x")],
+            ["at", ["array"], I(0)],                      # typed `!`
+            ["call", ["fn", [], "never", [["stm", ["return", ["expr", ["at", ["array"], I(0)]]]]]]]]
     if ids and rnd.random() < 0.5:
         return ["id", rnd.choice(ids)]
     return copy.deepcopy(rnd.choice(pool))
@@ -131,10 +146,11 @@ def mutate(rnd, prog):
     sites = []
     for k, l in enumerate(p):
         walk(l, [k], sites)
-    ids = sorted({get(p, s[1])[1] for s in sites if s[0] == "expr" and get(p, s[1])[0] == "id"})
+    # `std` is never used as a value of its own: the model's std holds `len` only
+    ids = sorted({get(p, s[1])[1] for s in sites if s[0] == "expr" and get(p, s[1])[0] == "id"} - {"std"})
     exprs = [s[1] for s in sites if s[0] == "expr" and len(s[1]) > 0]
     kind = rnd.choice(["replace", "replace", "replace", "swap", "type", "type", "ptype", "op", "return", "delete",
-                       "dup", "binder", "unwrap", "wrap"])
+                       "dup", "binder", "unwrap", "wrap", "arms"])
     try:
         if kind == "replace" and exprs:
             path = rnd.choice(exprs)
@@ -190,6 +206,17 @@ def mutate(rnd, prog):
                 del cont[k]
             else:
                 cont.insert(rnd.randrange(lo, len(cont) + 1), copy.deepcopy(cont[k]))
+        elif kind == "arms":
+            # drop arms of a `match` (all of them, or all but one); sometimes make the scrutinee `!`
+            ms = [s[1] for s in sites if s[0] == "match"]
+            if not ms:
+                return None
+            mnode = get(p, rnd.choice(ms))
+            keep = [] if rnd.random() < 0.5 else [rnd.choice(mnode[2:])] if len(mnode) > 2 else []
+            del mnode[2:]
+            mnode.extend(keep)
+            if rnd.random() < 0.5:
+                mnode[1] = ["at", ["array"], I(0)]
         elif kind == "binder":
             bs = [s[1] for s in sites if s[0] == "binder"]
             if not bs or not ids:
@@ -221,7 +248,7 @@ def mutate(rnd, prog):
             return None
     except (TypeError, IndexError, KeyError):
         return None
-    if p == prog:
+    if p == prog or bare_std(p, False):
         return None
     try:
         sast.program(p)
